@@ -27,6 +27,9 @@ CHECKS.update({
  'C02': ('model_checking', "Two specifications: Buckets.tla (the incremental free-capacity aggregates of racks/cell under add/remove/state/put/remove, pruning soundness model-checked exhaustively) and Sched.tla with a probe history variable (quiescent cell, one new instance, leaf-scan oracle). On the code: the recorded bucket aggregates are checked against the leaves on every step, and probe histories (quiesce, submit, cycle) on the real Cell are judged by the leaf-scan clause.", '6/C02', SCHED_NOTE),
  'C06': ('model_checking', "The queue functions are part of Sched.tla (per-allocation priority order, exact rank/boost/cap arithmetic, every legal interleaving of equal-rank allocations); invariants over all legal queues. On the code the queue is captured at Cell._find_placements (with each instance's placed flag at that moment) for nested allocation trees incl. randomly generated ones, and judged by six clauses (permutation, rank order, priority order, priority-0 last, boost, cap).", '6/C06', SCHED_NOTE + ' Float utilisation order of equal-rank instances of different allocations is not judged.'),
 })
+EXTRA = json.load(open(os.path.join(HERE, 'manifest_extra.json'))) if os.path.exists(os.path.join(HERE, 'manifest_extra.json')) else {}
+for _pid, _e in EXTRA.items():
+    CHECKS[_pid] = (_e['category'], _e['text'], _e.get('ref') or '6/' + _pid, _e['note']) + ((_e['technique'],) if _e.get('technique') else ())
 NA = {}
 ALL = ['C%02d' % i for i in range(1, 21)]
 def main():
